@@ -971,6 +971,7 @@ Print Assumptions layout_ok_decided.
 (* a text without "<" is good at every width, whatever textwrap breaks *)
 Theorem tag_free_text_ok : forall sty w t, no_lt t -> text_ok sty w t.
 Proof. intros. now left. Qed.
+Print Assumptions tag_free_text_ok.
 
 (* ---- examples ---- *)
 (* the command page with tagged descriptions (ex_tpage: <info>, <b> in the descriptions) is good from 41 columns on - the
